@@ -43,9 +43,30 @@ def script_of(hist):
             out.append("Y %d" % c["a"])
         elif op == "parse":
             out.append("Z %d %d" % (c["a"], c["f"]))
+        elif op == "wpatch":
+            out.append("H %d %d %d %d" % (c["a"], {"add": 0, "replace": 1, "copy": 2}[c["pop"]], c["vi"], len(c["path"])) +
+                       "".join(" %d %d" % (TM[t["t"]], t["v"]) for t in c["path"]) + " %d" % len(c["from"]) +
+                       "".join(" %d %d" % (TM[t["t"]], t["v"]) for t in c["from"]))
         else:
             raise vlib.Broken("world history has an operation the replayer does not know: %s" % op)
     return ";".join(out)
+
+
+def run_world_g(ck, exe, gcfg, name, stride):
+    """export the histories of a world model configuration and replay them on the real library (every held node observed after
+    every call)"""
+    hists, r = vlib.tlc_export_edges("GWorld", gcfg, timeout=2400, xmx="8g")
+    ck.add_tlc(r)
+    ck.stage("tlc:%s(invariants+properties+export)" % gcfg, __import__("time").time(), distinct=r.distinct, generated=r.generated, cached=bool(getattr(r, "cached", False)))
+    scripts = [script_of(h) for i, h in enumerate(hists) if i % stride == vlib.SEED % stride]
+    ck.extra["%s_edges" % name] = len(hists)
+    ck.extra["%s_scripts" % name] = len(scripts)
+    sp = os.path.join(ck.dir, name + ".scripts")
+    with open(sp, "w") as f:
+        f.write("\n".join(scripts) + "\n")
+    tp = os.path.join(ck.dir, name + ".ndjson")
+    deaths = vlib.run_executions(exe, lambda st: ["c05", "wreplay", sp, st], len(scripts), tp)
+    vlib.conformance(ck, "WG:%s-model-histories-replayed" % name, "TraceWorld", "trace.cfg", tp, deaths, diag_of, min_events=len(scripts))
 
 
 def run_world(ck, exe, n_random, first_exec=0, stride=4, mc=True):
